@@ -372,12 +372,12 @@ def run(pid, tier, seed, spec):
             new_failures.append(f)
     if new_failures:
         f = new_failures[0]
-        p = write_replay(ctx, {'property': pid, 'failure': f, 'all_failures': new_failures[:20],
+        p = write_replay(ctx, {'property': pid, 'tier': tier, 'seed': seed, 'failure': f, 'all_failures': new_failures[:20],
                                'broken': [b.as_dict() for b in ctx.broken]})
         print('VIOLATION property=%s replay=%s' % (pid, p))
         violations = len(new_failures)
     elif ctx.broken:
-        p = write_replay(ctx, {'property': pid, 'failure': None,
+        p = write_replay(ctx, {'property': pid, 'tier': tier, 'seed': seed, 'failure': None,
                                'no_longer_checks': [b.as_dict() for b in ctx.broken]})
         for b in ctx.broken[:8]:
             print('BROKEN %s: %s' % (b.kind, b.what))
@@ -388,6 +388,31 @@ def run(pid, tier, seed, spec):
         pid, tier, len(ctx.theorems), ctx.cov['evaluations'], len(ctx.distinct), len(ctx.known), len(ctx.broken),
         time.time() - ctx.t0))
     return 1 if violations else 0
+
+
+def replay(pid, spec, path):
+    """re-execute a recorded violation against the current /repo: the property's search harness is run again with the recorded seed and tier
+    (in its deeper mode if obligations were broken when the file was written) and the recorded failing input is looked up among the failures.
+    exit 1 if it fails again, 0 if it no longer does.  A file written for 'no-failing-input-found' names the obligations; replaying it re-runs the check."""
+    data = json.load(open(path))
+    print(json.dumps(data.get('failure') or data.get('no_longer_checks'), indent=1, default=str)[:3000])
+    tier, seed = data.get('tier', 'quick'), int(data.get('seed', 0) or 0)
+    if not data.get('failure'):
+        return run(pid, tier, seed, spec)
+    ctx = Ctx(pid, tier, seed)
+    os.environ['PYTHONHASHSEED'] = '0'
+    with Lock():
+        if data.get('broken'):
+            ctx.broken = [Broken(b.get('kind', 'obligation'), b.get('what', ''), '') for b in data['broken']]
+        fails = spec['search'](ctx) or []
+    want = data['failure']
+    key = lambda f: (f.get('replay'), f.get('class'), f.get('what'))
+    same = [f for f in fails if key(f) == key(want)] or [f for f in fails if f.get('class') == want.get('class') and f.get('what') == want.get('what')]
+    if same:
+        print('REPRODUCED property=%s: %s' % (pid, same[0].get('replay') or same[0].get('what')))
+        return 1
+    print('not reproduced on the current tree (property=%s; %d other failure(s) found by the same search)' % (pid, len(fails)))
+    return 0
 
 
 SETUP_WANT = {'trace', 'tables', 'ast'}
